@@ -22,7 +22,7 @@ use crate::packet::{
     signal::SpinBit,
 };
 
-const MAXPKT: usize = 48;
+const MAXPKT: usize = 64;
 const BODY: usize = 6;
 const SAMPLE: usize = 16;
 const TAG: usize = 16;
@@ -338,7 +338,7 @@ fn one_rtt_staged<const DL: usize, const PNL: usize, const STAGE: usize>(flip: b
     // only keeps the receiver's symbolic expressions from nesting the sender's.
     let sent = buf;
     let mut buf: [u8; MAXPKT] = kani::any();
-    tie!(buf, sent, 0 1 2 3 4 5 6 7 8 9 10 11 12 13 14 15 16 17 18 19 20 21 22 23 24 25 26 27 28 29 30 31 32 33 34 35 36 37 38 39 40 41 42 43 44 45 46 47);
+    tie!(buf, sent, 0 1 2 3 4 5 6 7 8 9 10 11 12 13 14 15 16 17 18 19 20 21 22 23 24 25 26 27 28 29 30 31 32 33 34 35 36 37 38 39 40 41 42 43 44 45 46 47 48 49 50 51 52 53 54 55 56 57 58 59 60 61 62 63);
     let size_s = size;
     let size: usize = kani::any();
     kani::assume(size == size_s);
@@ -710,4 +710,218 @@ fn c06_key_error_discards() {
     let pn: u64 = kani::any();
     let r = decrypt_packet(&Refuse, pn, &mut buf[..], 11);
     assert!(matches!(r, Err(crate::packet::error::Error::DecryptPacketFailure)), "AEAD failure ⇒ DecryptPacketFailure ⇒ packet dropped");
+}
+
+// ------------------------------------------------------------------------------------------------
+// Long-header packets (Initial with token, Handshake, 0-RTT).
+
+#[derive(Clone, Copy, PartialEq, Eq)]
+enum LongKind {
+    Initial,
+    ZeroRtt,
+    Handshake,
+}
+
+/// S for long-header packets: DL/SL = cid lengths, TL = token length (Initial only), PNL = pn length.
+fn sender_layout_long<const DL: usize, const SL: usize, const TL: usize, const PNL: usize>(kind: LongKind) {
+    let (hp, pk) = abstract_keys();
+    let keys = DirectionalKeys { header: hp.clone(), packet: pk.clone() };
+    let dcid = any_cid::<DL>();
+    let scid = any_cid::<SL>();
+    let token: [u8; TL] = kani::any();
+    let (pn, acked, _expected) = any_pn();
+    let encoded = encoded_pn::<PNL>(pn, acked);
+    let body = any_body();
+
+    let mut buf = [0u8; MAXPKT];
+    let builder = LongHeaderBuilder::with_cid(dcid, scid);
+    // header size the receiver will see: type(1)+version(4)+dcid(1+DL)+scid(1+SL)[+token len(1)+TL]
+    let hdr = 1 + 4 + 1 + DL + 1 + SL + if kind == LongKind::Initial { 1 + TL } else { 0 };
+    let writer = match kind {
+        LongKind::Initial => {
+            let h = builder.initial(token.to_vec());
+            assert!(h.size() == hdr && h.length_encoding() == 2);
+            PacketWriter::new_long(&h, &mut buf[..], (pn, encoded), keys)
+        }
+        LongKind::ZeroRtt => {
+            let h = builder.zero_rtt();
+            assert!(h.size() == hdr && h.length_encoding() == 2);
+            PacketWriter::new_long(&h, &mut buf[..], (pn, encoded), keys)
+        }
+        LongKind::Handshake => {
+            let h = builder.handshake();
+            assert!(h.size() == hdr && h.length_encoding() == 2);
+            PacketWriter::new_long(&h, &mut buf[..], (pn, encoded), keys)
+        }
+    };
+    let mut writer = W(writer.unwrap());
+    writer.put_slice(&body.bytes[..body.len]);
+    let _ = PadTo20.dump(&mut writer);
+    let writer = writer.0;
+    let written_body = writer.payload_len() - PNL;
+    let (size, info) = writer.encrypt_and_protect_packet();
+
+    let off = hdr + 2; // payload offset: after the 2-byte Length field
+    let body_off = off + PNL;
+    assert!(info.packet_number() == pn);
+    assert!(size == body_off + written_body + TAG, "packet size == header + length + pn + body + tag");
+    assert!(PNL + written_body + TAG >= 20, "enough bytes for the header-protection sample");
+    assert!(written_body >= body.len && (written_body == body.len || PNL + written_body + TAG == 20));
+    // Length field: 2-byte varint of (pn + body + tag): what be_packet uses to find the packet end
+    let length = (((buf[hdr] & 0x3f) as usize) << 8) | buf[hdr + 1] as usize;
+    assert!(buf[hdr] & 0xc0 == 0x40, "2-byte varint prefix");
+    assert!(length == PNL + written_body + TAG, "Length field covers packet number + payload + tag");
+
+    let hs = unsafe { &*hp.st.get() };
+    let ps = unsafe { &*pk.st.get() };
+    assert!(hs.seen && ps.sealed);
+    assert!(hs.sample_byte == buf[off + 4 + hp.probe], "sample is bytes[pn_offset+4 .. +20]");
+    let first_plain = buf[0] ^ (hp.mask_seen[0] & 0x0f);
+    let ty_bits = match kind {
+        LongKind::Initial => 0x00,
+        LongKind::ZeroRtt => 0x10,
+        LongKind::Handshake => 0x20,
+    };
+    assert!(first_plain & 0xf0 == 0xc0 | ty_bits, "long form, fixed bit, packet type bits");
+    assert!(first_plain & 0x0c == 0, "reserved bits are zero");
+    assert!((first_plain & 0x03) as usize + 1 == PNL, "pn length bits");
+    assert!(buf[1] == 0 && buf[2] == 0 && buf[3] == 0 && buf[4] == 1, "version 1");
+    assert!(buf[5] as usize == DL && buf[6 + DL] as usize == SL, "cid length bytes");
+    let mut wire = [0u8; 4];
+    (&mut wire[..]).put_packet_number(encoded);
+    let mut i = 0;
+    while i < 4 {
+        if i < PNL {
+            assert!(buf[off + i] ^ hp.mask_seen[1 + i] == wire[i], "masked packet number bytes");
+        }
+        i += 1;
+    }
+    assert!(ps.pn == pn);
+    assert!(ps.aad_len == body_off, "associated data == whole header incl. Length and packet number");
+    assert!(ps.ct_len == written_body);
+    let pa = pk.probe_aad;
+    if pa < body_off {
+        let unmasked = if pa == 0 {
+            first_plain
+        } else if pa >= off {
+            buf[pa] ^ hp.mask_seen[1 + (pa - off)]
+        } else {
+            buf[pa]
+        };
+        assert!(ps.aad_byte == unmasked, "associated data == the unmasked header bytes of the final packet (Length already filled in)");
+        if pa >= 6 && pa < 6 + DL {
+            assert!(buf[pa] == dcid[pa - 6], "dcid on the wire");
+        }
+        if pa >= 7 + DL && pa < 7 + DL + SL {
+            assert!(buf[pa] == scid[pa - 7 - DL], "scid on the wire");
+        }
+        if kind == LongKind::Initial && pa >= 8 + DL + SL && pa < 8 + DL + SL + TL {
+            assert!(buf[pa] == token[pa - 8 - DL - SL], "token on the wire");
+        }
+    }
+    let pc = pk.probe_ct;
+    if pc < written_body {
+        assert!(ps.ct_byte == buf[body_off + pc]);
+        if pc < body.len {
+            assert!(buf[body_off + pc] == body.bytes[pc]);
+        } else {
+            assert!(buf[body_off + pc] == 0);
+        }
+    }
+    assert!(buf[size - TAG + pk.probe_tag] == pk.tag[pk.probe_tag], "tag occupies the last 16 bytes");
+    kani::cover!(written_body > body.len, "PadTo20 padded the packet");
+    kani::cover!(pa == hdr || pa == hdr + 1, "probe on the Length field");
+}
+
+#[kani::proof]
+#[kani::unwind(10)]
+#[kani::stub(core::slice::index::slice_index_fail, stub_slice_index_fail)]
+fn c06_sender_handshake_cid8_8_pn2() {
+    sender_layout_long::<8, 8, 0, 2>(LongKind::Handshake);
+}
+
+#[kani::proof]
+#[kani::unwind(10)]
+#[kani::stub(core::slice::index::slice_index_fail, stub_slice_index_fail)]
+fn c06_sender_initial_cid8_0_tok3_pn4() {
+    sender_layout_long::<8, 0, 3, 4>(LongKind::Initial);
+}
+
+#[kani::proof]
+#[kani::unwind(10)]
+#[kani::stub(core::slice::index::slice_index_fail, stub_slice_index_fail)]
+fn c06_sender_zero_rtt_cid4_20_pn3() {
+    sender_layout_long::<4, 20, 0, 3>(LongKind::ZeroRtt);
+}
+
+/// R for long packets: arbitrary bytes, payload offset OFF.
+fn receiver_calls_long<const OFF: usize>() {
+    let (hp, pk) = abstract_keys();
+    let orig: [u8; MAXPKT] = kani::any();
+    kani::assume(orig[0] & 0x80 != 0);
+    let mut buf = orig;
+    let size: usize = kani::any();
+    kani::assume(size >= OFF + 20 && size <= MAXPKT);
+    let expected: u64 = kani::any();
+    kani::assume(expected < (1u64 << 62));
+
+    let removed = remove_protection_of_long_packet(hp.as_ref(), &mut buf[..size], OFF);
+    let hs = unsafe { &*hp.st.get() };
+    assert!(hs.d_called);
+    assert!(hs.d_sample_byte == orig[OFF + 4 + hp.probe], "sample == bytes[payload_offset+4 .. +20]");
+    assert!(hs.d_first_in == orig[0] && hs.d_pn_len_in == 4);
+    let m = &hp.mask_other;
+    let first_plain = orig[0] ^ (m[0] & 0x0f);
+    assert!(buf[0] == first_plain, "only the low 4 bits of a long header's first byte are protected");
+    let pn_len = (first_plain & 0x03) as usize + 1;
+    let j: usize = kani::any();
+    kani::assume(j >= 1 && j < size);
+    if j >= OFF && j < OFF + pn_len {
+        assert!(buf[j] == orig[j] ^ m[1 + (j - OFF)]);
+    } else {
+        assert!(buf[j] == orig[j], "no other byte of the packet is touched");
+    }
+    let undecoded = match removed {
+        Ok(Some(x)) => x,
+        Ok(None) => panic!("abstract key never fails"),
+        Err(_) => {
+            assert!(first_plain & 0x0c != 0, "Err only for non-zero reserved bits");
+            return;
+        }
+    };
+    assert!(first_plain & 0x0c == 0, "non-zero reserved bits are an error (RFC 9000 17.2)");
+    assert!(undecoded.size() == pn_len);
+    let mut wire = [0u8; 4];
+    (&mut wire[..]).put_packet_number(undecoded);
+    let mut i = 0;
+    while i < 4 {
+        if i < pn_len {
+            assert!(wire[i] == buf[OFF + i]);
+        }
+        i += 1;
+    }
+    let decoded = undecoded.decode(expected);
+    let body_offset = OFF + undecoded.size();
+    let snapshot = buf;
+    let res = decrypt_packet(pk.as_ref(), decoded, &mut buf[..size], body_offset);
+    let ps = unsafe { &*pk.st.get() };
+    assert!(ps.opened && ps.o_pn == decoded);
+    assert!(ps.o_aad_len == body_offset);
+    if pk.probe_aad < body_offset {
+        assert!(ps.o_aad_byte == snapshot[pk.probe_aad]);
+    }
+    assert!(ps.o_payload_len == size - body_offset);
+    if pk.probe_ct < size - body_offset {
+        assert!(ps.o_ct_byte == snapshot[body_offset + pk.probe_ct]);
+    }
+    assert!(ps.o_tag_byte == snapshot[size - TAG + pk.probe_tag]);
+    assert!(res.is_ok() && res.unwrap() == size - body_offset - TAG);
+    kani::cover!(pn_len == 3, "3-byte pn");
+}
+
+#[kani::proof]
+#[kani::unwind(10)]
+#[kani::stub(core::slice::index::slice_index_fail, stub_slice_index_fail)]
+fn c06_receiver_long_off25() {
+    receiver_calls_long::<25>();
 }
